@@ -25,6 +25,17 @@ Proof. exact planck_le_rj. Qed.
 Theorem planck_approaches_rayleighjeans : forall f T, 0 < f -> 0 < T -> x_of f T < 1 ->
   (1 - x_of f T) * rayleighjeans f T < planck f T.
 Proof. exact planck_ge_rj. Qed.
+(* the limit clause as an epsilon-delta statement: planck / rayleighjeans -> 1 as x = h f / k T -> 0 (x > 0 for all
+   positive f, T), the ratio being the function x / (e^x - 1) of x alone *)
+Theorem planck_tends_to_rayleighjeans : forall eps, 0 < eps -> exists d, 0 < d /\
+  forall f T, 0 < f -> 0 < T -> x_of f T < d -> Rabs (planck f T / rayleighjeans f T - 1) < eps.
+Proof. exact planck_rj_limit. Qed.
+Theorem planck_over_rayleighjeans_is_x_over_expm1 : forall f T, 0 < f -> 0 < T ->
+  planck f T / rayleighjeans f T = x_of f T / (exp (x_of f T) - 1).
+Proof. exact planck_over_rj. Qed.
+Theorem x_over_expm1_tends_to_1 : forall eps, 0 < eps -> exists d, 0 < d /\
+  forall x, 0 < x < d -> Rabs (x / (exp x - 1) - 1) < eps.
+Proof. exact x_over_expm1_limit. Qed.
 
 (* the three spectral forms describe the same spectrum *)
 Theorem wavelength_form_consistent : forall f T, 0 < f -> 0 < T ->
@@ -68,7 +79,7 @@ Theorem snell_law_real : forall n1 n2 t, 0 < n1 -> 0 < n2 -> 0 <= t <= 90 -> n1 
 Proof. exact snell_law. Qed.
 (* complex n2 (only n2 may be complex): the branch of Liou's formula agrees with the real law when the imaginary
    part vanishes, for every angle up to total reflection -- the complex branch is a continuation of Snell's law,
-   not a different function.  (The bound |R| <= 1 for complex n2 stays a numerically swept, named gap.) *)
+   not a different function. *)
 Theorem snell_complex_reduces_to_real : forall n1 n2 t, 0 < n1 -> 0 < n2 -> 0 <= t <= 90 ->
   n1 * sin (t * PI / 180) <= n2 -> snell_complex_n2 n1 n2 0 t = snell n1 n2 t.
 Proof. exact snell_complex_real_limit. Qed.
@@ -102,10 +113,48 @@ Theorem fresnel_brewster_angle : forall n1 n2 t, 0 < n1 -> 0 < n2 -> 0 < t < 90 
   fst (fresnel n1 n2 t) = 0.
 Proof. exact fresnel_brewster. Qed.
 
+(* Fresnel, complex refractive index n2 = n2r + i n2i of the reflecting medium, as the code computes it (gen/em.v:
+   fresnel_complex_n2, translated from the same source lines with n2 a pair of reals): theta2 is the REAL angle of refraction
+   returned by snell (Liou's formula), cos(theta2) is real, and Rv, Rh are the complex quotients
+   (n2 c1 - n1 c2)/(n2 c1 + n1 c2), (n1 c1 - n2 c2)/(n1 c1 + n2 c2) written out on (re, im); cabs is the modulus.
+   This is not the textbook formula with a complex cos(theta2); the theorems are about what the code returns.
+   No sign condition on n2i is needed (the code raises for n2i < 0: fresnel_complex_n2_raises). *)
+Theorem fresnel_bounded_complex : forall n1 n2r n2i t, 0 < n1 -> 0 < n2r -> 0 <= t < 90 ->
+  cabs (fst (fresnel_complex_n2 n1 n2r n2i t)) <= 1 /\ cabs (snd (fresnel_complex_n2 n1 n2r n2i t)) <= 1.
+Proof. exact fresnel_complex_bounded. Qed.
+(* the guard of the totalised division: under the same hypotheses both complex denominators are non-zero, so the
+   bound above is not an artefact of x / 0 = 0 *)
+Theorem fresnel_complex_denominators_nonzero : forall n1 n2r n2i t, 0 < n1 -> 0 < n2r -> 0 <= t < 90 ->
+  let c1 := cos (t * PI / 180) in
+  let c2 := cos (snell_complex_n2 n1 n2r n2i t * PI / 180) in
+  0 < (n2r * c1 + n1 * c2) * (n2r * c1 + n1 * c2) + (n2i * c1) * (n2i * c1) /\
+  0 < (n1 * c1 + n2r * c2) * (n1 * c1 + n2r * c2) + (n2i * c2) * (n2i * c2).
+Proof. exact fresnel_complex_denominators. Qed.
+(* an absorbing medium (Im n2 <> 0) never reflects totally: the bound is strict at every angle below grazing *)
+Theorem fresnel_absorbing_strict : forall n1 n2r n2i t, 0 < n1 -> 0 < n2r -> n2i <> 0 -> 0 <= t < 90 ->
+  cabs (fst (fresnel_complex_n2 n1 n2r n2i t)) < 1 /\ cabs (snd (fresnel_complex_n2 n1 n2r n2i t)) < 1.
+Proof. exact fresnel_complex_strict. Qed.
+(* |Rv| = |Rh| at normal incidence for complex n2 as well *)
+Theorem fresnel_normal_complex : forall n1 n2r n2i, 0 < n1 -> 0 < n2r ->
+  cabs (fst (fresnel_complex_n2 n1 n2r n2i 0)) = cabs (snd (fresnel_complex_n2 n1 n2r n2i 0)).
+Proof. exact fresnel_complex_normal. Qed.
+(* with a vanishing imaginary part the complex computation is the real one (up to total reflection), so the Brewster
+   and normal-incidence theorems above are statements about the same function *)
+Theorem fresnel_complex_reduces_to_real : forall n1 n2 t, 0 < n1 -> 0 < n2 -> 0 <= t < 90 ->
+  n1 * sin (t * PI / 180) <= n2 ->
+  fresnel_complex_n2 n1 n2 0 t = ((fst (fresnel n1 n2 t), 0), (snd (fresnel n1 n2 t), 0)).
+Proof. exact fresnel_complex_real_limit. Qed.
+
 (* non-vacuity: a microwave frequency at room temperature is in the domain and has small x *)
 Example nonvacuous : 0 < 1e11 /\ 0 < 300 /\ x_of 1e11 300 < 1 /\ 1 * sin (30 * PI / 180) <= 1.33.
 Proof. unfold x_of, c_planck, c_boltzmann. repeat split; try Lra.lra.
   pose proof (SIN_bound (30 * PI / 180)). Lra.lra. Qed.
+(* sea water at microwave frequencies, n2 = 6 + 3i, seen from air at 53 degrees: in the domain of the complex theorems *)
+Example nonvacuous_complex : 0 < 1 /\ 0 < 6 /\ 3 <> 0 /\ 0 <= 53 < 90.
+Proof. repeat split; Lra.lra. Qed.
+(* the limit statements are not vacuous: x < d is met by positive f, T (x_of 1e9 300 < 1e-3) *)
+Example nonvacuous_limit : 0 < 1e9 /\ 0 < 300 /\ 0 < x_of 1e9 300 < 1e-3.
+Proof. unfold x_of, c_planck, c_boltzmann. repeat split; Lra.lra. Qed.
 
 Print Assumptions tb_inverts_planck.
 Print Assumptions tb_inverts_rayleighjeans.
@@ -113,6 +162,9 @@ Print Assumptions planck_positive.
 Print Assumptions planck_increasing_in_T.
 Print Assumptions planck_below_rayleighjeans.
 Print Assumptions planck_approaches_rayleighjeans.
+Print Assumptions planck_tends_to_rayleighjeans.
+Print Assumptions planck_over_rayleighjeans_is_x_over_expm1.
+Print Assumptions x_over_expm1_tends_to_1.
 Print Assumptions wavelength_form_consistent.
 Print Assumptions wavenumber_form_consistent.
 Print Assumptions unit_converters_inverse.
@@ -127,3 +179,8 @@ Print Assumptions snell_rejects_nonpositive_index.
 Print Assumptions fresnel_bounded_real.
 Print Assumptions fresnel_normal.
 Print Assumptions fresnel_brewster_angle.
+Print Assumptions fresnel_bounded_complex.
+Print Assumptions fresnel_complex_denominators_nonzero.
+Print Assumptions fresnel_absorbing_strict.
+Print Assumptions fresnel_normal_complex.
+Print Assumptions fresnel_complex_reduces_to_real.
